@@ -243,7 +243,7 @@ def run_history(hist, bind, stopsig, wk="sync", nopid=False, extra_args=()):
         stop.set()
         [t.join(6) for t in ths]
         tr = {"unix": bind == "unix", "nopid": bool(nopid), "ev": ev}
-        return tr, {"hist": hist, "bind": bind, "nopid": bool(nopid), "extra_args": list(extra_args) + (["@release"] if release else []) + (["@relcfg"] if relcfg else []), "sig": int(stopsig), "complete": counters["complete"], "failed": counters["failed"],
+        return tr, {"hist": hist, "bind": bind, "wk": wk, "nopid": bool(nopid), "extra_args": list(extra_args) + (["@release"] if release else []) + (["@relcfg"] if relcfg else []), "sig": int(stopsig), "complete": counters["complete"], "failed": counters["failed"],
                     "masters": masters}
     finally:
         stop.set()
@@ -318,9 +318,18 @@ def c14(ctx):
         if not sel:
             continue
         traces = [t for t, m in sel]
+        smetas = [m for t, m in sel]
         verdicts, stats = tlc.validate_batch("UpgradeTrace", up_cfg("trace_%s" % unix, unix, trace=True), traces,
                                              name="UpgradeTrace_%s" % unix)
         ctx.add_traces(len(traces), stats)
+
+        def rerun(k):
+            m = smetas[k]
+            return run_history([tuple(x) for x in m["hist"]], m["bind"], m["sig"], wk=m.get("wk", "sync"), nopid=bool(m.get("nopid")),
+                               extra_args=tuple(m.get("extra_args") or ()))
+        tlc.repeat_failing(ctx, "UpgradeTrace", up_cfg("trace_%s" % unix, unix, trace=True), traces, smetas, verdicts,
+                           range(len(traces)), rerun, "UpgradeTrace_%s" % unix)
+        sel = list(zip(traces, smetas))
         for (t, m), (v, step) in zip(sel, verdicts):
             if v == "ok":
                 continue
